@@ -802,6 +802,19 @@ fn check_snippet(ctx: &mut Ctx, tk: &Tk, fls: &[Fl], text: &str, terms: &BTreeMa
             }
         }
     }
+    // the model's reader of the HTML (the `unescapeChars` of C19_html_roundtrip) on the real rendering
+    if let (Ok(html), false) = (&out.html, outside) {
+        if html.len() <= 4000 {
+            let arg = if html.is_empty() { "-".to_string() } else { dots(html) };
+            let m = ctx.model.ask(&format!("C19 unesc {arg}"));
+            let expect = if out.fragment.is_empty() { "-".to_string() } else { dots(&out.fragment) };
+            ctx.report.count("snippet:model-unescape-of-real-html");
+            if m != expect {
+                ctx.report.violation("model", "C19:model-unescape-mismatch", format!("the model's unescape of the real to_html() {:?} is not the fragment {:?}: {desc}", short(html), short(&out.fragment)), case.clone());
+                return;
+            }
+        }
+    }
     // ---- O4: model ----------------------------------------------------------------------------
     if let Some(m) = model {
         let frag = if out.fragment.is_empty() { "-".to_string() } else { dots(&out.fragment) };
@@ -1276,6 +1289,7 @@ pub fn run(ctx: &mut Ctx) {
         "FacetTokenizer + filter chain (text buffer rewritten in place by filters) = model facetChain".into(),
         "SnippetGenerator::snippet: fragment, raw highlighted(), to_html() bytes (or panic) = model".into(),
         "collapse_overlapped_ranges = model collapse".into(),
+        "model unescapeChars(real to_html()) = real fragment()".into(),
         "NgramTokenizer::new accepts / rejects (min, max) as the model's extracted guards do".into(),
         "SplitCompoundWords as the outermost filter of a reused analyzer = stateful model (parts buffer threaded through abandoned streams, cleared per the extracted token_stream shape)".into(),
         "history independence: one analyzer reused over a sequence of texts, streams abandoned after k tokens, gives for every text (a prefix of) the fresh-analyzer token list, which is the stateless model's".into(),
